@@ -71,18 +71,19 @@ func c08Exec(w *cvxWorld, j *cvxJob) bool {
 	defer w.plans.Delete(j.id)
 	var got *cvxGot
 	var err error
+	rid := j.id
 	wantStatus := status
 	if cs.C.Kind == "http" {
-		got, err = w.doHTTP(cs, j.id)
+		got, rid, err = w.doHTTP(cs, j.id)
 	} else {
-		got, err = w.doWS(cs, j.id)
+		got, rid, err = w.doWS(cs, j.id)
 		wantStatus = 101
 	}
 	if err != nil {
 		w.errorf("case %d: %v (%s)", j.id, err, c08Describe(cs))
 		return false
 	}
-	seen := w.take(j.id)
+	seen := w.take(rid)
 	if seen == nil {
 		fail("upstream-missing", "the upstream was not contacted (client got status %d)", got.Status)
 		return false
